@@ -25,13 +25,15 @@ def build_amp_matrix(dec, data, weight=None):
     hij = []
     used_chains = dec.chains_idx
     index = []
-    for k, i in enumerate(dec):
-        dec.set_used_chains([k])
-        tmp = []
-        for j, amp in enumerate(build_sum_amplitude(dec, i, data)):
-            tmp.append(amp)
-        hij.append(tmp)
-    dec.set_used_chains(used_chains)
+    try:
+        for k, i in enumerate(dec):
+            dec.set_used_chains([k])
+            tmp = []
+            for j, amp in enumerate(build_sum_amplitude(dec, i, data)):
+                tmp.append(amp)
+            hij.append(tmp)
+    finally:
+        dec.set_used_chains(used_chains)
     # print([i.shape for i in hij.values()])
     # print([[j.shape for j in i] for i in hij])
     return index, hij
@@ -105,13 +107,15 @@ def build_sum_angle_amplitude(dg, dec_chain, data):
 def build_angle_amp_matrix(dec, data, weight=None):
     hij = []
     used_chains = dec.chains_idx
-    for k, i in enumerate(dec):
-        dec.set_used_chains([k])
-        tmp = []
-        for j, amp in enumerate(build_sum_angle_amplitude(dec, i, data)):
-            tmp.append(amp)
-        hij.append(tmp)
-    dec.set_used_chains(used_chains)
+    try:
+        for k, i in enumerate(dec):
+            dec.set_used_chains([k])
+            tmp = []
+            for j, amp in enumerate(build_sum_angle_amplitude(dec, i, data)):
+                tmp.append(amp)
+            hij.append(tmp)
+    finally:
+        dec.set_used_chains(used_chains)
     return list(dec), hij
 
 
